@@ -134,6 +134,16 @@ impl<Key, Value> Store<Key, Value>
         None
     }
 
+    /// Deletes the key only if the stored value still carries the given `key_id`.
+    /// The eviction of an expired key removes the weight of its `key_id` first and the key from the `Store` afterwards;
+    /// in between, the key may have been deleted and put again (with a new `key_id`).
+    /// The newer value must not be removed on behalf of the older `key_id`.
+    pub(crate) fn delete_if_key_id_matches(&self, key: &Key, key_id: &KeyId) {
+        if self.store.remove_if(key, |_, stored_value| stored_value.key_id() == *key_id).is_some() {
+            self.stats_counter.delete_key();
+        }
+    }
+
     pub(crate) fn mark_deleted(&self, key: &Key) {
         if let Some(mut pair) = self.store.get_mut(key) {
             let stored_value = pair.value_mut();
